@@ -74,7 +74,7 @@ func branchesReposDecode(b []byte) ([]BranchRepos, error) {
 		return nil, fmt.Errorf("unsupported BranchRepos encoding version %d", v)
 	}
 
-	l := r.uvarint() // Length
+	l := r.count() // Length
 	brs := make([]BranchRepos, l)
 
 	for i := range l {
@@ -167,7 +167,7 @@ func stringSetDecode(b []byte) (map[string]struct{}, error) {
 	}
 
 	// Length
-	l := r.uvarint()
+	l := r.count()
 	set := make(map[string]struct{}, l)
 
 	for range l {
@@ -184,7 +184,8 @@ type binaryReader struct {
 
 func (b *binaryReader) uvarint() int {
 	x, n := binary.Uvarint(b.b)
-	if n < 0 {
+	// n == 0: the input ends inside the varint.
+	if n <= 0 {
 		b.b = nil
 		b.err = errors.New("malformed RepoBranches")
 		return 0
@@ -193,9 +194,22 @@ func (b *binaryReader) uvarint() int {
 	return int(x)
 }
 
+// count reads the number of elements of a collection. Every element takes
+// at least one byte, so a count beyond the remaining input is malformed;
+// rejecting it keeps garbage from driving huge allocations or loops.
+func (b *binaryReader) count() int {
+	n := b.uvarint()
+	if n < 0 || n > len(b.b) {
+		b.b = nil
+		b.err = errors.New("malformed RepoBranches")
+		return 0
+	}
+	return n
+}
+
 func (b *binaryReader) str() string {
 	l := b.uvarint()
-	if l > len(b.b) {
+	if l < 0 || l > len(b.b) {
 		b.b = nil
 		b.err = errors.New("malformed RepoBranches")
 		return ""
@@ -207,7 +221,7 @@ func (b *binaryReader) str() string {
 
 func (b *binaryReader) bitmap() *roaring.Bitmap {
 	l := b.uvarint()
-	if l > len(b.b) {
+	if l < 0 || l > len(b.b) {
 		b.b = nil
 		b.err = errors.New("malformed BranchRepos")
 		return nil
